@@ -71,7 +71,7 @@ def pad_header(part, total):
 
 
 def check_seq(seq, obs, main_options_everywhere=False, pad=None,
-              crlf=False, reiterate=False):
+              crlf=False, reiterate=False, blanks=None):
     parts = [section_bytes(s) for s in seq]
     if pad:
         # header lines of exactly 96 / 192 / 288 bytes: a legal order must
@@ -93,6 +93,13 @@ def check_seq(seq, obs, main_options_everywhere=False, pad=None,
     if crlf:
         # CRLF header lines (content keeps its own LF endings)
         parts = [(p[0].replace(b'\n', b'\r\n', 1), p[1]) for p in parts]
+    if blanks:
+        # blank separator lines before some headers change nothing: the
+        # order is judged exactly as without them (and they are not counted
+        # as logical lines)
+        eol = b'\r\n' if crlf else b'\n'
+        parts = [((eol * blanks[i % len(blanks)]) + p[0], p[1])
+                 for i, p in enumerate(parts)]
     data = b''.join(p[0] for p in parts)
     lines = []
     n = 0
@@ -130,6 +137,7 @@ def check_seq(seq, obs, main_options_everywhere=False, pad=None,
             return
     case = {'sequence': list(seq), 'pad': list(pad) if pad else None,
             'crlf': crlf, 'reiterate': reiterate,
+            'blanks': list(blanks) if blanks else None,
             'main_options_everywhere': main_options_everywhere}
     got_ids = [r['section'] for r in recs]
     if exc is not None and type(exc).__name__ != 'DiffXParseError':
@@ -224,6 +232,12 @@ def run(ctx):
                     check_seq(p + (ext,), obs, crlf=True)
                     check_seq(p + (ext,), obs, reiterate=True)
                     n += 2
+                if i % 8 == 4:
+                    bl = [(1,), (0, 1), (0, 0, 2), (1, 0), (3, 1, 0, 0, 1)][
+                        i // 8 % 5]
+                    check_seq(p + (ext,), obs, blanks=bl)
+                    check_seq(p + (ext,), obs, blanks=bl, crlf=True)
+                    n += 2
     for first in H.ALL_IDS:
         for second in ('.change', '.meta', 'diffx'):
             i += 1
@@ -232,7 +246,10 @@ def run(ctx):
                 check_seq((first, second), obs, main_options_everywhere=True)
                 check_seq((first, second, '..file', '...meta'), obs,
                           main_options_everywhere=True)
-                n += 3
+                check_seq((first, second), obs, main_options_everywhere=True,
+                          blanks=(1, 1))
+                check_seq((first, second), obs, blanks=(0, 1))
+                n += 5
     obs.case(None, nontrivial=False, n=n)
     obs.distinct_by_construction(n)
     obs.exhaustive = True
@@ -251,4 +268,5 @@ def replay(case, obs):
     check_seq(tuple(case['sequence']), obs,
               case.get('main_options_everywhere', False),
               pad=case.get('pad'), crlf=case.get('crlf', False),
-              reiterate=case.get('reiterate', False))
+              reiterate=case.get('reiterate', False),
+              blanks=case.get('blanks'))
